@@ -26,7 +26,9 @@
 // Variants: typed_exp2 typed_mod  (constructor arguments 2 3 4 5 8; exp2 rounds 3->4, 5->8)
 //           void_exp2 void_mod    (32 48 64 96; exp2 rounds 48->64, 96->128)
 //           void_unaligned        (non-exp2 buffer, capacities 40 100 36 52: 100, 36, 52 are not multiples of 8)
-// Options: --cap N, --rot N (warm-up rotation), --maxops N.
+// Options: --cap N, --rot N (warm-up rotation), --maxops N, --sizeops PCT (void variants: PCT percent of the
+//          operations of both threads are replaced by size() / empty(), results checked against the bounds the
+//          calling thread can rely on; default 0 = programs unchanged).
 #include <cds/init.h>
 #include <cds/container/weak_ringbuffer.h>
 #include <algorithm>
@@ -120,6 +122,7 @@ struct Fixture {
     std::vector<std::string> more;
     size_t cap_arg = 0, cap = 0;
     int maxops = 8;
+    unsigned sizeops = 0;
 
     // typed state
     std::vector<long> produced;         // successfully pushed values, in order (producer only appends)
@@ -148,6 +151,7 @@ struct Fixture {
         static size_t const unaligned_caps[] = { 40, 100, 36, 52 };
         std::string const& v = c.variant;
         maxops = int( c.optl( "maxops", 8 ));
+        sizeops = unsigned( c.optl( "sizeops", 0 ));
         uint64_t rotsel;
         if ( v == "typed_exp2" || v == "typed_mod" ) {
             cap_arg = size_t( c.optl( "cap", long( typed_caps[c.index % 5] )));
@@ -182,6 +186,7 @@ struct Fixture {
             // 8-byte records occupy 16 bytes each.  For capacities that are not a multiple of 8 the rotation stops
             // short of the buffer end, so that the first wrap happens inside the scheduled program.
             size_t rot = size_t( c.optl( "rot", long( cap % 8 ? rotsel % ( cap / 16 ) : rotsel % ( cap / 8 + 1 ))));
+            rot_used = rot;
             for ( size_t i = 0; i < rot; ++i ) {
                 std::vector<long> r1 = void_push( 0, 0 );
                 std::vector<long> r2 = void_pop();
@@ -192,7 +197,8 @@ struct Fixture {
     }
     std::string spec() const { return "none"; }
     size_t rot_used = 0;
-    // configuration the Lean machine Algo/Ring needs to start from the same state (tie A)
+    // configuration the Lean machines Algo/Ring and Algo/VoidRing need to start from the same state (tie A);
+    // void variants: each warm-up round pushes an 8-byte record (ids 1..rot) and pops it
     std::string header_extra() const { return "cap=" + std::to_string( cap ) + " rot=" + std::to_string( rot_used ); }
 
     std::vector<std::vector<Op>> program( Rng& r, int, int nops )
@@ -231,10 +237,17 @@ struct Fixture {
                 // selector: 0 random, 1 ends exactly at the buffer end, 2 one slot too long (forces the unused
                 // tail), 3 leaves exactly one 8-byte slot, 4 largest legal record
                 static int const sel_tab[] = { 0, 0, 0, 1, 1, 2, 2, 3, 3, 4 };
-                p[0].push_back( Op( "push", sel_tab[r.below( 10 )], long( r.below( 1000 ))));
+                if ( sizeops > 0 && r.chance( sizeops ))
+                    p[0].push_back( Op( r.chance( 50 ) ? "size" : "empty" ));
+                else
+                    p[0].push_back( Op( "push", sel_tab[r.below( 10 )], long( r.below( 1000 ))));
             }
-            for ( int i = 0; i < nc; ++i )
-                p[1].push_back( Op( "pop" ));
+            for ( int i = 0; i < nc; ++i ) {
+                if ( sizeops > 0 && r.chance( sizeops ))
+                    p[1].push_back( Op( r.chance( 50 ) ? "size" : "empty" ));
+                else
+                    p[1].push_back( Op( "pop" ));
+            }
         }
         return p;
     }
@@ -434,8 +447,42 @@ struct Fixture {
         return { 1, long( g.size ), id };
     }
 
+    // size() / empty() from either thread.  The caller's own counter is stable during the call, the other one only
+    // grows: the producer gets an upper bound of the bytes in flight (>= produced - consumed-so-far is not observable
+    // here; <= produced - consumed-before-invocation), the consumer a lower bound of what it will find.
+    std::vector<long> void_size( int tid, bool want_empty )
+    {
+        uint64_t c0 = cfront_done;
+        size_t p0 = pushed_done;
+        size_t g0 = got.size();
+        long n = want_empty ? 0 : long( vo->size());
+        bool e = want_empty ? vo->empty() : false;
+        if ( !want_empty ) {
+            if ( n < 0 || size_t( n ) > cap || n % 8 != 0 ) {
+                std::ostringstream os;
+                os << "sizeval size() returned " << n << ", capacity " << cap;
+                raise( os.str());
+            }
+            if ( tid == 0 && uint64_t( n ) > mback - c0 ) {
+                std::ostringstream os;
+                os << "sizeval producer's size() = " << n << " exceeds back " << mback << " - front-before-invocation >= " << c0;
+                raise( os.str());
+            }
+            if ( tid == 1 && n == 0 && p0 > g0 )
+                raise( "sizeval consumer's size() = 0 although a completed push has not been consumed" );
+            return { n };
+        }
+        if ( tid == 1 && e && p0 > g0 )
+            raise( "sizeval consumer's empty() = true although a completed push has not been consumed" );
+        if ( tid == 0 && !e && mback == c0 && got.size() == pushed_done )
+            raise( "sizeval producer's empty() = false although everything produced had been consumed before the call" );
+        return { e ? 1L : 0L };
+    }
+
     std::vector<long> exec( int tid, Op const& op )
     {
+        if ( vo && ( op.name == "size" || op.name == "empty" ))
+            return void_size( tid, op.name == "empty" );
         if (( tid == 0 ) != ( op.name.compare( 0, 4, "push" ) == 0 )) {
             raise( "client single-producer/single-consumer contract broken by the program generator" );
             return { -1 };
